@@ -17,7 +17,10 @@ RULE = ("TL half. S->C (programs x inputs): TlShape_Gen (TLC) enumerates schema 
         "vectors. Families F and L of TlShape_Gen are always included: F = conditional bytes / string / (vector int) / (vector t.inner) fields with a field after them "
         "whose value is EMPTY while the bit is set (every value is marshalled with its empty slices as nil and as non-nil slices; TLC's `wrong` = the bytes with the "
         "empty field left out is a canary for both judges); L = vectors on both sides of 64 KiB / (element size + 1) elements (int long int256 t.inner; thorough "
-        "Bool bytes) followed by a field and as last field, through UnmarshalTL / MarshalTL and the answer of a request method. C->S: random larger schemas (1..40 declarations, every flag bit 0..31, explicit random ids) -> generated code -> recorded Marshal / "
+        "Bool bytes) followed by a field and as last field, through UnmarshalTL / MarshalTL and the answer of a request method; I = the constructors of the two "
+        "multi-constructor types declared non-contiguously (t.alt1 t.alt2 t.u1 t.u2 t.alt3 t.u3 [t.alt4]), every constructor alone and as a request's answer; "
+        "B = Bool first / last / as vector element with refusal vectors (op Rej): the bytes of a value with the word at the Bool position replaced by zero, the "
+        "byte-swapped ids, all ones, boolTrue + 1, 1 -- TlSem!Dec refuses them (checked by TLC), UnmarshalTL must too. C->S: random larger schemas (1..40 declarations, every flag bit 0..31, explicit random ids) -> generated code -> recorded Marshal / "
         "Unmarshal / Call events judged by TlSem_Trace with the schema carried in the segment's Reset event. distinct = vectors replayed + events accepted.")
 
 BUILTIN = ["int", "long", "int256", "bytes", "string", "Bool", "#"]
@@ -39,7 +42,7 @@ def camel(s):
 
 
 # ----------------------------------------------------------------------------------- schemas
-TFBASE, TLBASE = 9_000_000, 9_100_000     # TlShape_Gen!FBase, LBase
+TFBASE, TLBASE, TIBASE, TBBASE = 9_000_000, 9_100_000, 9_200_000, 9_300_000     # TlShape_Gen!FBase, LBase, IBase, BBase
 
 
 def shape_numbers(ck):
@@ -57,7 +60,8 @@ def shape_numbers(ck):
     base = NA + (ck.seed % 1000) * 5000
     # TlShape_Gen families: F (conditional bytes / string / vector fields with an EMPTY value while the bit is set, a field after them),
     # L (vectors longer than 64 KiB / (element size + 1), a field after them / last; quick: int long int256 t.inner, thorough: + Bool bytes)
-    fam = [TFBASE + i for i in range(8)] + [TLBASE + i for i in range(12 if ck.thorough else 8)]
+    # I: the constructors of the two multi-constructor types declared non-contiguously (interleaved)
+    fam = [TFBASE + i for i in range(8)] + [TLBASE + i for i in range(12 if ck.thorough else 8)] + [TIBASE + i for i in range(4)] + [TBBASE + i for i in range(3)]      # B: Bool positions with refusal vectors (op Rej)
     return singles + [base + i for i in range(multi)] + fam
 
 
@@ -413,6 +417,10 @@ def run_tl(ck, mod):
                     key = "C09:tl:codec:%s:empty-value-held-as-nil-slice" % r_["op"]
                 elif TLBASE <= r_["schema"] < TLBASE + 12:
                     key = "C09:tl:codec:%s:long-vector" % r_["op"]
+                elif TIBASE <= r_["schema"] < TIBASE + 4:
+                    key = "C09:tl:codec:%s:non-contiguous-constructors" % r_["op"]
+                elif r_["op"] == "Rej":
+                    key = "C09:tl:codec:Rej:word-at-Bool-position"
                 else:
                     key = key_for(s, "codec:" + r_["op"])
                 ck.report(key,
@@ -498,6 +506,21 @@ def run_tl(ck, mod):
     ck.states, ck.transitions, ck.traces_ok, ck.evaluations = st, tr, ok, evs_
     ck.canary("C->S marshal: recorded bytes with the empty conditional field left out (schema %d; the prescribed bytes pass)" % sidf,
               [r_["line"] for r_ in rej] == [2])
+    # ---- family B: a refusal vector carrying bytes the schema does define must be reported (the driver really requires a refusal);
+    # and TlSem_Trace must reject a recorded Unmarshal that accepted the bad word, and accept one that refused it
+    bs = [(sid, v) for sid in sorted(schemas) if TBBASE <= sid < TBBASE + 3 and sid in usable for v in schemas[sid]["vecs"] if v["op"] == "Rej"]
+    if not bs:
+        raise Infra("family B produced no refusal vector")
+    sidb, vb = bs[0]
+    got = run_vecs(sidb, [dict(copy.deepcopy(vb), hex=vb["valid_hex"], vec=0)], "rejvalid")
+    ck.canary("S->C: a refusal expected for bytes the schema defines (schema %d)" % sidb, len(got) == 1 and not got[0]["match"])
+    resetb = {"k": "Reset", "schema": schemas[sidb]["ast"], "note": "schema %d" % sidb}
+    p = os.path.join(ck.work, "canary_rej_trace.ndjson")
+    vlib.write_ndjson(p, [resetb, {"k": "Unmarshal", "ty": vb["ty"], "op": "Enc", "hex": vb["hex"], "rest": 0, "err": "", "v": vb["v"]},
+                          resetb, {"k": "Unmarshal", "ty": vb["ty"], "op": "Enc", "hex": vb["hex"], "rest": 0, "err": "other"}, {"k": "End"}])
+    _, rej = ck.validate_segments("TlSem_Trace", "trace/TlSem_Trace.cfg", p, name="canary_rej")
+    ck.states, ck.transitions, ck.traces_ok, ck.evaluations = st, tr, ok, evs_
+    ck.canary("C->S unmarshal: a recorded decode that accepted a word that is neither boolTrue nor boolFalse (the refusing one passes)", [r_["line"] for r_ in rej] == [2])
     # ---- family L: a long vector that comes back one element short is not the value
     ls = [(sid, v) for sid in sorted(schemas) if TLBASE <= sid < TLBASE + 12 and sid in usable for v in schemas[sid]["vecs"][1:2]]
     if not ls:
@@ -530,7 +553,8 @@ RULE_TLB = ("TL-B half. TlbShape_Gen (TLC over TlbMini.tla) enumerates declarati
             "go the same C->S way. The TL-B drivers are compiled with the output of tlb/parser's integer templates (GenerateVarUintTypes 1..33, GenerateConstantInts, "
             "GenerateConstantBigInts, GenerateBitsTypes) in the place of tlb/integers.go (go build -overlay); the VarUInteger family ((VarUInteger n), n = 1..33, "
             "values 0 / one byte / largest length / drawn; len field of ceil(log2 n) bits, shortest len) is always included, its `wrong` twin = the length field "
-            "one bit wider (n a power of two). Canaries of the Either family: TLC also emits, for a value of (Either ^X X), the cell with the reference on the other side "
+            "one bit wider (n a power of two); the (## n) family holds every n in 1..64 (eight per schema, each followed by the next and a Bool), its `wrong` twin = "
+            "every width rounded up to the next machine word. Canaries of the Either family: TLC also emits, for a value of (Either ^X X), the cell with the reference on the other side "
             "(the declaration with the ^ exchanged); TlbMini!Matches must refuse it at generation time, the driver must report a mismatch when it is the "
             "expectation, and TlbMini_Trace must reject an event carrying it (left and right value each), while the prescribed cells pass; the same three judges "
             "must refuse the twin of an unnamed ^ field whose content is inline instead of in a new cell.")
@@ -664,12 +688,13 @@ def write_tlb_pkg(mod, sid, ast, text):
 
 EBASE, ECOUNT = 9_000_000, 96     # TlbShape_Gen!EBase: the Either family — (Either l r), l, r in {X, ^X, Y, ^Y}, two type pairs, three contexts
 VBASE, VCOUNT = 9_200_000, 33     # TlbShape_Gen!VBase: (VarUInteger n), n = 1..33, compiled against the output of the integer templates
+NBASE, NCOUNT = 9_300_000, 8      # TlbShape_Gen!NBase: (## n) for every n in 1..64, eight per schema, each followed by the next and a Bool
 ABASE, ACOUNT = 9_100_000, 32     # TlbShape_Gen!ABase: the unnamed-field family — 8 forms of a field without `name:` x alone / first / middle / last
 
 
 def tlb_shape_numbers(ck):
     NA = 43
-    either = [EBASE + e for e in range(ECOUNT)] + [ABASE + a for a in range(ACOUNT)] + [VBASE + i for i in range(VCOUNT)]
+    either = [EBASE + e for e in range(ECOUNT)] + [ABASE + a for a in range(ACOUNT)] + [VBASE + i for i in range(VCOUNT)] + [NBASE + i for i in range(NCOUNT)]
     if ck.thorough:
         return list(range(NA)) + [NA + (ck.seed % 1000) * 5000 + i for i in range(1000 - NA)] + either
     return list(range(NA)) + [NA + (ck.seed % 1000) * 5000 + i for i in range(60 - NA)] + either
@@ -852,7 +877,8 @@ def run_tlb(ck, mod):
         return out if len(out) == 2 else None
     fams = [("either", "the reference on the other side of the Either", EBASE, ECOUNT, [EBASE + 4, EBASE + 1], wrong_pair_either),
             ("unnamed", "the unnamed reference field inline instead of in a new cell", ABASE, ACOUNT, [ABASE + 2, ABASE + 10], wrong_pair_unnamed),
-            ("varuint", "the length field of a VarUInteger one bit too wide", VBASE, VCOUNT, [VBASE + 15, VBASE + 3], wrong_pair_unnamed)]
+            ("varuint", "the length field of a VarUInteger one bit too wide", VBASE, VCOUNT, [VBASE + 15, VBASE + 3], wrong_pair_unnamed),
+            ("nat", "every (## n) as wide as the next machine word", NBASE, NCOUNT, [NBASE + 2], wrong_pair_unnamed)]
     chosen = []        # (tag, what, schema, its two vectors)
     for tag, what, base, count, first, wrong_pair in fams:
         fam = [sid for sid in first + sorted(schemas) if base <= sid < base + count and sid in usable and sid in results
